@@ -221,6 +221,9 @@ def gen_pairs(max_len):
             labs = spans.labels(desc)
             n = len(labs)
             cands = [None] + [spans.enc_label(x) for x in labs] + [spans.enc_label(x) for x in spans.absent_labels(desc)[:1]]
+            odd = spans.odd_absent_labels(desc)
+            if odd:
+                cands.append(spans.enc_label(odd[i % len(odd)]))     # an unknown label of another type altogether
             if desc['k'] == 'period':
                 cands += [str(x) for x in labs[:2]]
                 if desc['freq'] == 'Q' and labs:
@@ -253,7 +256,8 @@ def strategy():
         n = len(labs)
         lags = draw(st.integers(0, min(2, n - 1)))
         leads = draw(st.integers(0, min(1, n - 1 - lags)))
-        lab = st.one_of(st.none(), st.sampled_from([spans.enc_label(x) for x in labs]))
+        lab = st.one_of(st.none(), st.sampled_from([spans.enc_label(x) for x in labs]), st.sampled_from([spans.enc_label(x) for x in labs]),
+                        st.sampled_from([spans.enc_label(x) for x in spans.odd_absent_labels(desc)] or [None]))
         fault = None
         if draw(st.booleans()):
             fault = [draw(st.integers(0, n - 1)), draw(st.integers(1, 3)), draw(faults)]
